@@ -36,14 +36,28 @@ LEAN = {"module": "Pygom.Props.C08", "extra_modules": ["Pygom.Lemmas.Canary", "P
                      "Pygom.C08Source.extracted_good", "Pygom.C08Source.extracted_registered_watched",
                      "Pygom.C08Source.extracted_all_registered", "Pygom.C08Source.extracted_watches_all",
                      "Pygom.C08Source.extracted_master_is_ode", "Pygom.C08Source.extracted_eq_source",
-                     "Pygom.C08Source.never_stale_extracted"]}
-BUDGET = {"quick": {"cases": 280, "maxlen": 12, "search": 600},
-          "thorough": {"cases": 360, "maxlen": 40, "search": 800}}
+                     "Pygom.C08Source.never_stale_extracted",
+                     "Pygom.C08.two_instance_noninterference", "Pygom.C08.never_stale_pair", "Pygom.C08.never_stale_pair_source",
+                     "Pygom.C08.shared_store_stale_counterexample", "Pygom.C08.per_instance_store_fresh",
+                     "Pygom.C08Source.extracted_store_eq_source", "Pygom.C08Source.extracted_store_per_instance",
+                     "Pygom.C08Source.never_stale_pair_extracted"]}
+BUDGET = {"quick": {"cases": 200, "cases2": 70, "maxlen": 12, "maxlen2": 9, "search": 450},
+          "thorough": {"cases": 300, "cases2": 100, "maxlen": 40, "maxlen2": 24, "search": 600}}
 RULE = ("random initial model (1-3 states, 1-3 params, 0-3 events, every API route incl. incremental ones) + random history "
         "(length 3..12 quick / 3..40 thorough) of mutators (add_event Event/bare Transition, add_transition, add_birth_death, "
         "add_ode, derived parameter, new parameter/state then used, parameter values as list/ndarray/tuples/permuted tuples/"
         "dict/partial dict/Symbol-keyed dict, rejected calls) interleaved with evaluations; all 12 evaluators (grad_grad included) observed "
-        "after every step on a replayed instance; non-trivial = some mutator or parameter assignment occurs after a compile")
+        "after every step on a replayed instance; the observation order is part of the case and so is, per observation, whether the "
+        "freshly constructed REFERENCE model (kept alive, like every instance the case builds) evaluates the evaluator BEFORE the "
+        "instance under test does (40% of the rounds never, 30% always, 30% per evaluator); every evaluator is also called at a SECOND "
+        "point (integer state and time) in the argument form of the round (state as list / tuple / ndarray of float, of int, int32 "
+        "array, lists of numpy float64 / int64 scalars; time as float / int / numpy float64 / int64) and must agree with the reference "
+        "called with a list of floats, without writing to the container; every array returned during a round (in-history "
+        "evaluations, both points) is kept and must be unchanged at the end of the round; 25% of the parameter assignments after "
+        "the second restore the values before the last.  70 further cases (thorough 100) run TWO live instances with the same names "
+        "(B built from the same definition, half of the time with the parameters declared in another order; own values), each with "
+        "its own history (3..9 ops in total, thorough ..24), interleaved at random, all 12 evaluators of both observed in one "
+        "random order after every step.  non-trivial = some mutator or parameter assignment occurs after a compile (of that instance)")
 ASSUMPTIONS = ["'fresh model' = SimulateOde built from the accumulated definition with no evaluator compiled before the last "
                "mutator, parameters assigned once as a full list (a parameter never given a value counts as 0, as "
                "`_paramValue = [0]*n` does)",
@@ -53,7 +67,9 @@ ASSUMPTIONS = ["'fresh model' = SimulateOde built from the accumulated definitio
                "VERIF_C08_CFG=as_found selects the model of the tree as found"]
 TRUSTED = ["harness generator / replay logic", "Lean driver JSON codec", "pymodel.build (route replay)",
            "harness/translate_canary.py: that the extracted table (which mutators follow every definition-changing statement by "
-           "trip(), HasNewTransition.states, add_func registrations, set_sp in the declaration setters) says what the Python text does"]
+           "trip(), HasNewTransition.states, add_func registrations, set_sp in the declaration setters, whether CompileCanary.trip() "
+           "rebinds self._states and __init__ calls trip()) says what the Python text does",
+           "not extracted (as modelled): CompileCanary.reset / __setattr__ write the flag of the one name into the dict the object holds"]
 
 
 def pre(tier):
@@ -63,11 +79,12 @@ def pre(tier):
     r = TC.regenerate(bootstrap.REPO)
     broken = [{"obligation": "translator: %s" % x["what"], "detail": "BROKEN TIE - source outside the translated subset: " + x["detail"]}
               for x in r["refused"]]
-    n = len(TC.MUTATORS) + 3
+    n = len(TC.MUTATORS) + 4
     return {"broken": broken, "obligations": n, "discharged": n - len(broken),
             "coverage": {"generated_files_changed": ["lean/Pygom/Gen/CanaryCfg.lean"] if r["changed"] else [],
                          "canary_translator": {"trips": r["trips"], "watched": r["watched"], "registered": r["registered"],
-                                               "declSetsSp": r["declSetsSp"], "per_mutator": r["detail"], "refusals": r["refused"]}}}
+                                               "declSetsSp": r["declSetsSp"], "tripRebinds": r["tripRebinds"], "initTrips": r["initTrips"],
+                                               "per_mutator": r["detail"], "refusals": r["refused"]}}}
 
 EVALS = ["ode", "jacobian", "grad", "diff_jacobian", "grad_jacobian", "grad_grad", "eventRateVector", "vMat", "pureOdeVector",
          "transitionJacobian", "transitionMean", "transitionVar"]
@@ -90,11 +107,12 @@ def _val(r, den=(7, 10, 13)):
     return "%d/%d" % (r.randint(1, 20), r.choice(den))
 
 
-def gen_history(r, meta, maxlen):
+def gen_history(r, meta, maxlen, nmin=3):
     states, params, derived = list(meta["states"]), list(meta["params"]), list(meta["derived"])
     kinds = [k for k in gen.RATE_KINDS]
     ops = []
-    n = r.randint(3, maxlen)
+    full_assignments = []
+    n = r.randint(min(nmin, maxlen), maxlen)
     p_eval = r.choice([0.25, 0.4, 0.55])
     new_p, new_s, new_d = list(NEW_PARAMS), list(NEW_STATES), list(NEW_DERIVED)
     while len(ops) < n:
@@ -133,7 +151,15 @@ def gen_history(r, meta, maxlen):
                 names = r.sample(params, r.randint(1, len(params)))
             elif fmt == "tuples_perm":
                 r.shuffle(names)
-            ops.append({"op": "set_params", "kind": "set_params", "fmt": fmt, "names": names, "values": {nm: _val(r) for nm in names}})
+            values = {nm: _val(r) for nm in names}
+            if len(full_assignments) >= 2 and r.random() < 0.25:
+                # RESTORE: the values of the assignment before the last one again (a memo keyed on the values, or a
+                # result that survives a round trip of the values, shows here)
+                old = full_assignments[-2]
+                values = {nm: old.get(nm, values[nm]) for nm in names}
+            if fmt != "dict_subset":
+                full_assignments.append(dict(values))
+            ops.append({"op": "set_params", "kind": "set_params", "fmt": fmt, "names": names, "values": values})
         elif k == "add_params":
             if not new_p:
                 continue
@@ -171,24 +197,89 @@ def gen_history(r, meta, maxlen):
     return ops, states, params
 
 
+FORMS = ["list_float", "tuple_float", "nd_float", "list_int", "tuple_int", "nd_int", "nd_int32", "list_npfloat", "list_npint"]
+TFORMS = ["float", "int", "np_float", "np_int"]
+
+
+def _point_and_probes(r, case, states, nrounds, pairs):
+    """the first observation point (rationals, passed as a list of floats), the second one (integers, passed in the
+    argument form of the round), the observation order of every round and, per observation, whether the freshly
+    constructed REFERENCE model evaluates the evaluator BEFORE the instance under test does"""
+    case["x"] = {s: "%d/%d" % (r.randint(1, 40), r.choice([1, 2, 3])) for s in states}
+    case["t"] = "%d/12" % r.randint(0, 36)
+    case["x2"] = {s: r.randint(1, 40) for s in states}
+    case["t2"] = r.randint(0, 3)
+    case["observe"], case["ref_first"], case["forms"] = [], [], []
+    for _ in range(nrounds + 1):
+        order = r.sample(pairs, len(pairs))
+        case["observe"].append(order)
+        mode = gen.wchoice(r, [("after", 4), ("first", 3), ("mixed", 3)])
+        case["ref_first"].append([mode == "first" or (mode == "mixed" and r.random() < 0.5) for _ in order])
+        case["forms"].append([r.choice(FORMS), r.choice(TFORMS)])
+
+
 def make_case(r, maxlen):
     spec, meta = gen.gen_model(r, max_states=3, max_params=3, max_events=3, allow_range=True)
     ops, states, params = gen_history(r, meta, maxlen)
-    return {"spec": spec,
+    case = {"spec": spec,
             "meta": {"states": meta["states"], "params": meta["params"], "derived": meta["derived"], "routes": meta["routes"]},
             "history": ops,
+            "pv0": {p: _val(r) for p in meta["params"]}}
+    _point_and_probes(r, case, states, len(ops), list(EVALS))
+    return case
+
+
+def make_case2(r, maxlen):
+    """TWO live instances with the same state / parameter names: B is built from the same definition (half of the time
+    with the parameters DECLARED in another order), each gets its own random history and its own parameter values, the
+    two histories are interleaved at random (every op carries "inst")"""
+    spec, meta = gen.gen_model(r, max_states=3, max_params=3, max_events=3, allow_range=True)
+    spec_b = copy.deepcopy(spec)
+    meta_b = copy.deepcopy(meta)
+    if len(meta["params"]) >= 2 and r.random() < 0.5:
+        pb = list(meta["params"])
+        while pb == meta["params"]:
+            r.shuffle(pb)
+        spec_b["param"] = {"list": pb}
+        meta_b["params"] = pb
+    la = r.randint(2, max(2, maxlen // 2 + 1))
+    ops_a, st_a, _ = gen_history(r, meta, la, nmin=2)
+    ops_b, st_b, _ = gen_history(r, meta_b, max(2, maxlen - len(ops_a)), nmin=1)
+    for o in ops_a:
+        o["inst"] = 0
+    for o in ops_b:
+        o["inst"] = 1
+    ops, ia, ib = [], 0, 0
+    while ia < len(ops_a) or ib < len(ops_b):
+        if ib >= len(ops_b) or (ia < len(ops_a) and r.random() < 0.55):
+            ops.append(ops_a[ia]); ia += 1
+        else:
+            ops.append(ops_b[ib]); ib += 1
+    case = {"spec": spec, "spec_b": spec_b,
+            "meta": {"states": meta["states"], "params": meta["params"], "derived": meta["derived"], "routes": meta["routes"],
+                     "params_b": meta_b["params"]},
+            "history": ops,
             "pv0": {p: _val(r) for p in meta["params"]},
-            "x": {s: "%d/%d" % (r.randint(1, 40), r.choice([1, 2, 3])) for s in states},
-            "t": "%d/12" % r.randint(0, 36),
-            "observe": [r.sample(EVALS, len(EVALS)) for _ in range(len(ops) + 1)]}
+            "pv0_b": {p: _val(r) for p in meta["params"]}}
+    states = list(st_a) + [s for s in st_b if s not in st_a]
+    # all twelve evaluators of both instances, in ONE random order
+    pairs = [[i, e] for i in (0, 1) for e in EVALS]
+    _point_and_probes(r, case, states, len(ops), pairs)
+    return case
+
+
+def _cases(rng, n1, n2, maxlen, maxlen2):
+    out = [make_case(random.Random(rng.getrandbits(64)), maxlen) for _ in range(n1)]
+    out += [make_case2(random.Random(rng.getrandbits(64)), maxlen2) for _ in range(n2)]
+    return out
 
 
 def make_cases(rng, tier, budget):
-    return [make_case(random.Random(rng.getrandbits(64)), budget["maxlen"]) for _ in range(budget["cases"])]
+    return _cases(rng, budget["cases"], budget["cases2"], budget["maxlen"], budget["maxlen2"])
 
 
 def search_cases(rng, tier, budget):
-    return [make_case(random.Random(rng.getrandbits(64)), budget["maxlen"]) for _ in range(budget["search"])]
+    return _cases(rng, budget["search"], budget["search"] // 3, budget["maxlen"], budget["maxlen2"])
 
 
 # ---------------------------------------------------------------------------------------------------------------
@@ -229,9 +320,14 @@ def apply_set_params(model, op, pv):
     pv.update(v)
 
 
-def call(model, name, x, t):
+def call(model, name, x, t, keep=None):
+    """('ok', float copy of the value) or ('err', ...).  `keep`: list that receives (the object returned, a copy of it)"""
     try:
-        return ("ok", np.asarray(getattr(model, name)(x, t), float))
+        raw = getattr(model, name)(x, t)
+        val = np.array(raw, dtype=float, copy=True)
+        if keep is not None and isinstance(raw, np.ndarray):
+            keep.append((raw, raw.copy()))
+        return ("ok", val)
     except Exception as exc:
         return ("err", type(exc).__name__, str(exc)[:200])
 
@@ -258,8 +354,43 @@ def show(a):
     return "%s shape=%s" % (np.array2string(a[1].ravel()[:12], precision=8), a[1].shape)
 
 
+def make_form(form, vals):
+    """the state argument in the form of the round (values are integers)"""
+    if form == "list_float":
+        return [float(v) for v in vals]
+    if form == "tuple_float":
+        return tuple(float(v) for v in vals)
+    if form == "nd_float":
+        return np.array(vals, dtype=float)
+    if form == "list_int":
+        return [int(v) for v in vals]
+    if form == "tuple_int":
+        return tuple(int(v) for v in vals)
+    if form == "nd_int":
+        return np.array(vals, dtype=np.int64)
+    if form == "nd_int32":
+        return np.array(vals, dtype=np.int32)
+    if form == "list_npfloat":
+        return [np.float64(v) for v in vals]
+    if form == "list_npint":
+        return [np.int64(v) for v in vals]
+    raise ValueError(form)
+
+
+def make_tform(tform, t2):
+    return {"float": float(t2), "int": int(t2), "np_float": np.float64(t2), "np_int": np.int64(t2)}[tform]
+
+
+def frozen(arg):
+    """a comparable snapshot of an argument container"""
+    if isinstance(arg, np.ndarray):
+        return ("nd", str(arg.dtype), arg.tolist())
+    return (type(arg).__name__, [repr(v) for v in arg])
+
+
 class Fresh:
-    """freshly constructed models, one per (definition version, parameter values)"""
+    """freshly constructed models (direct oracle), one per (definition version, parameter values); they stay alive for
+    the whole case, like every other instance the case builds"""
 
     def __init__(self, specs):
         self.specs = specs
@@ -274,12 +405,22 @@ class Fresh:
             self.cache[key] = (m, {})
         return self.cache[key]
 
-    def value(self, ver, pv, name, xvals, t):
+    def value(self, ver, pv, name, xvals, t, pt=1, force=False):
+        """force: really CALL the reference instance now (another live instance evaluating the same evaluator at this
+        moment of the history is part of the case), cached otherwise"""
         m, vals = self.model(ver, pv)
-        if name not in vals:
-            x = [xvals[str(s)] for s in m.state_list]
-            vals[name] = call(m, name, x, t)
-        return vals[name]
+        if force or (name, pt) not in vals:
+            x = [float(xvals[str(s)]) for s in m.state_list]
+            vals[(name, pt)] = call(m, name, x, float(t))
+        return vals[(name, pt)]
+
+    def value_form(self, ver, pv, name, xvals, t, form, tform):
+        """the reference called with the state / time in the given argument form (cached)"""
+        m, vals = self.model(ver, pv)
+        key = (name, 2, form, tform)
+        if key not in vals:
+            vals[key] = call(m, name, make_form(form, [xvals[str(s)] for s in m.state_list]), make_tform(tform, t))
+        return vals[key]
 
     def free_symbols(self, ver, pv, name):
         m, _ = self.model(ver, pv)
@@ -287,191 +428,260 @@ class Fresh:
         return set(str(s) for s in obj.free_symbols)
 
 
-def lean_history(ops, pv_track):
+def lean_history(ops):
     """history for the driver; set_params carries the unrolled `_paramValue` (harness's view) so that the model
     knows its length"""
     out = []
     for op in ops:
         if op["op"] == "set_params":
-            out.append({"op": "set_params", "values": op["_unrolled"]})
+            out.append({"op": "set_params", "values": op["_unrolled"], "inst": op.get("inst", 0)})
         else:
-            out.append({k: v for k, v in op.items() if k not in ("kind",)})
+            o = {k: v for k, v in op.items() if k not in ("kind",)}
+            o.setdefault("inst", 0)
+            out.append(o)
     return out
 
 
 def run_case(case):
-    spec, hist = case["spec"], case["history"]
+    hist = copy.deepcopy(case["history"])
+    specs0 = [case["spec"]] + ([case["spec_b"]] if case.get("spec_b") else [])
+    NI = len(specs0)
+    two = NI == 2
     tags, mism, viol = [], [], []
     xvals = {k: _f(v) for k, v in case["x"].items()}
     t = _f(case["t"])
+    x2vals = case.get("x2")
+    t2 = case.get("t2", 0)
     n = len(hist)
     drv = leanio.driver()
+    alive = []                       # every instance the case builds stays alive until the case ends
+    inst_of = lambda op: int(op.get("inst", 0))
+    tags.append("instances=%d" % NI)
+    if two:
+        tags.append("two:decl_order_differs" if case["meta"].get("params_b") != case["meta"]["params"] else "two:same_declaration")
 
     # ---- pass 0: which mutators does the real code accept; definition versions; parameter values after each step
-    m0 = pymodel.build(spec, backend="lambda")
-    absent = [e for e in EVALS if not hasattr(m0, e)]
+    m0 = [pymodel.build(sp, backend="lambda") for sp in specs0]
+    alive += m0
+    absent = [e for e in EVALS if not hasattr(m0[0], e)]
     if absent:
         # the modelled source registers these names with add_func (Canary.Ev): their absence is a broken correspondence
         return {"nontrivial": False, "tags": ["evaluator-missing:" + ",".join(absent)], "violations": [],
                 "mismatches": [{"what": "evaluator missing: " + ",".join(absent),
                                 "detail": "the model has no attribute %s; Canary.Ev / simulate.HasNewTransition.states list it" % absent}]}
-    pv = {p: _f(v) for p, v in case["pv0"].items()}
-    names0 = [str(p) for p in m0.param_list]
-    for nm in names0:
-        pv.setdefault(nm, 0.0)
-    specs = [copy.deepcopy(spec)]
+    pv0s = [case["pv0"]] + ([case["pv0_b"]] if two else [])
+    pv = [{p: _f(v) for p, v in pv0s[i].items()} for i in range(NI)]
+    names0 = [[str(p) for p in m0[i].param_list] for i in range(NI)]
+    for i in range(NI):
+        for nm in names0[i]:
+            pv[i].setdefault(nm, 0.0)
+    specs = [[copy.deepcopy(specs0[i])] for i in range(NI)]
     ver_after, pv_after, accepted, params_after = [], [], [], []
-    hist = copy.deepcopy(hist)
     for op in hist:
+        i = inst_of(op)
         acc = None
         if op["op"] == "evaluate":
             pass
         elif op["op"] == "set_params":
-            apply_set_params(m0, op, pv)
+            apply_set_params(m0[i], op, pv[i])
             tags.append("fmt:" + op["fmt"])
         else:
             try:
-                apply_mutator(m0, op)
+                apply_mutator(m0[i], op)
                 acc = True
-                s2 = copy.deepcopy(specs[-1])
-                s2["then"] = list(s2.get("then", [])) + [{k: v for k, v in op.items() if k != "kind"}]
-                specs.append(s2)
+                s2 = copy.deepcopy(specs[i][-1])
+                s2["then"] = list(s2.get("then", [])) + [{k: v for k, v in op.items() if k not in ("kind", "inst")}]
+                specs[i].append(s2)
             except Exception as exc:
                 acc = False
                 tags.append("mutator_rejected:" + pymodel.err_enum(exc))
             tags.append("mut:" + op["kind"])
-        for nm in [str(p) for p in m0.param_list]:
-            pv.setdefault(nm, 0.0)
+        for nm in [str(p) for p in m0[i].param_list]:
+            pv[i].setdefault(nm, 0.0)
         if op["op"] == "set_params":
-            op["_unrolled"] = ["%s" % Fraction(pv[str(p)]).limit_denominator(10 ** 6) for p in m0.param_list]
+            op["_unrolled"] = ["%s" % Fraction(pv[i][str(p)]).limit_denominator(10 ** 6) for p in m0[i].param_list]
         accepted.append(acc)
-        ver_after.append(len(specs) - 1)
-        pv_after.append(dict(pv))
-        params_after.append([str(p) for p in m0.param_list])
-    fresh = Fresh(specs)
-    pv_init = {nm: (_f(case["pv0"][nm]) if nm in case["pv0"] else 0.0) for nm in names0}
+        ver_after.append([len(specs[j]) - 1 for j in range(NI)])
+        pv_after.append([dict(pv[j]) for j in range(NI)])
+        params_after.append([[str(p) for p in m0[j].param_list] for j in range(NI)])
+    fresh = [Fresh(specs[i]) for i in range(NI)]
+    pv_init = [{nm: (_f(pv0s[i][nm]) if nm in pv0s[i] else 0.0) for nm in names0[i]} for i in range(NI)]
 
-    compiled_seen = False
+    compiled_seen = [False] * NI
     after_compile = set()
+    other_between = False            # (two instances) the OTHER instance evaluates after this one was compiled and mutated
+    mutated_after_compile = [False] * NI
     for op in hist:
+        i = inst_of(op)
         if op["op"] == "evaluate":
-            compiled_seen = True
-        elif compiled_seen:
+            compiled_seen[i] = True
+            if two and mutated_after_compile[1 - i]:
+                other_between = True
+        elif compiled_seen[i]:
             after_compile.add(op["kind"])
+            if op["op"] != "set_params":
+                mutated_after_compile[i] = True
     for k in sorted(after_compile):
         tags.append("after_compile:" + k)
+    if other_between:
+        tags.append("two:other_instance_evaluates_between_mutation_and_reevaluation")
     tags.append("len=%d" % n)
     tags.append("evals_in_history=%d" % sum(1 for o in hist if o["op"] == "evaluate"))
 
     seen_sig = set()
     internal = {"recompile_agree": 0, "recompile_differ": 0, "flags_agree": 0, "flags_differ": 0}
+    counts = {"ref_first": 0, "ref_after": 0, "second_point": 0, "kept": 0}
 
     def op_kind(op):
         if op["op"] == "evaluate":
             return "evaluate:" + op["name"]
         return op["kind"] + (":" + op["fmt"] if op["op"] == "set_params" else "")
 
-    def culprit_of(name, got, k):
+    def state_before(i, j):
+        """(definition version, parameter values) of instance i before step j"""
+        return (ver_after[j - 1][i], pv_after[j - 1][i]) if j > 0 else (0, pv_init[i])
+
+    def culprit_of(i, name, got, k):
         """the step whose effect the returned value fails to reflect, found with the direct oracle alone: the value
         equals what a fresh model of an EARLIER (definition, parameter values) returns -> the first effective step
         after that point; for exceptions: the last declaration (arity) / definition mutator of the prefix"""
-        effective = lambda i: hist[i]["op"] == "set_params" or (hist[i]["op"] != "evaluate" and accepted[i])
+        effective = lambda q: inst_of(hist[q]) == i and (hist[q]["op"] == "set_params" or (hist[q]["op"] != "evaluate" and accepted[q]))
         if got[0] == "ok":
             for j in range(k - 1, -1, -1):
-                vj, pj = (ver_after[j - 1], pv_after[j - 1]) if j > 0 else (0, pv_init)
-                if same(got, fresh.value(vj, pj, name, xvals, t)):
-                    for i in range(j, k):
-                        if effective(i):
-                            return op_kind(hist[i])
-        cands = [i for i in range(k) if effective(i) and hist[i]["op"] != "set_params"]
+                if not effective(j):
+                    continue
+                vj, pj = state_before(i, j)
+                if same(got, fresh[i].value(vj, pj, name, xvals, t)):
+                    return op_kind(hist[j])
+        cands = [q for q in range(k) if effective(q) and hist[q]["op"] != "set_params"]
         if got[0] == "err" and got[1] == "TypeError":
-            decl = [i for i in cands if hist[i]["kind"] in ("add_params", "add_states")]
+            decl = [q for q in cands if hist[q]["kind"] in ("add_params", "add_states")]
             cands = decl or cands
-        return op_kind(hist[cands[-1]]) if cands else op_kind(hist[k - 1])
+        if cands:
+            return op_kind(hist[cands[-1]])
+        own = [q for q in range(k) if inst_of(hist[q]) == i]
+        return op_kind(hist[own[-1]]) if own else "nothing"
 
-    def check(name, got, ver, pvk, lean_step, k, where):
-        want = fresh.value(ver, pvk, name, xvals, t)
+    def add_violation(sig, what, detail):
+        if sig not in seen_sig:
+            seen_sig.add(sig)
+            viol.append({"what": what, "signature": sig, "detail": detail})
+
+    def params_at_ver(i, dv):
+        m, _ = fresh[i].model(dv, pv_init[i])
+        return [str(p) for p in m.param_list]
+
+    def check(i, name, got, want, k, lean_step, where, suffix, got_x, got_pvals_all):
+        """(a) direct oracle: `want` comes from a freshly constructed model; (b) the Lean state machine"""
+        stale = False
         if got[0] == "err" and want[0] == "err":
             tags.append("both_raise:%s" % name)
         if not same(got, want):
-            sig = "stale:%s:after:%s" % (name, culprit_of(name, got, k)) + (":raises:%s" % got[1] if got[0] == "err" else "")
-            if sig not in seen_sig:
-                seen_sig.add(sig)
-                viol.append({"what": "%s differs from a freshly constructed model (%s)" % (name, where), "signature": sig,
-                             "detail": "got %s ; fresh model gives %s" % (show(got), show(want))})
-        # (b) what the Lean state machine implies
+            stale = True
+            sig = "stale:%s:after:%s" % (name, culprit_of(i, name, got, k)) + (":raises:%s" % got[1] if got[0] == "err" else "") + suffix
+            add_violation(sig, "%s differs from a freshly constructed model (%s)" % (name, where),
+                          "got %s ; fresh model gives %s" % (show(got), show(want)))
         if lean_step is None:
-            return
+            return stale
         dv, sp, nvals = lean_step["def_ver"], lean_step["sp"], lean_step["nvals"]
-        cur_states = len(got_x)
-        if len(sp) != cur_states + 1 + nvals:
+        if len(sp) != len(got_x) + 1 + nvals:
             pred = ("err", "TypeError", "arity")
         else:
             bind = dict(zip(sp, list(got_x) + [t] + got_pvals_all[:nvals]))
-            pvb = {nm: bind.get(nm, 0.0) for nm in params_at_ver(dv)}
-            pred = fresh.value(dv, pvb, name, xvals, t)
+            pvb = {nm: bind.get(nm, 0.0) for nm in params_at_ver(i, dv)}
+            pred = fresh[i].value(dv, pvb, name, xvals, t)
         if not same(got, pred):
-            if got[0] == "err" and pred[0] == "ok" and not (fresh.free_symbols(dv, pv_init, name) <= set(sp)):
+            if got[0] == "err" and pred[0] == "ok" and not (fresh[i].free_symbols(dv, pv_init[i], name) <= set(sp)):
                 tags.append("lean:stale_sp_free_symbol_error")
-                return
+                return stale
             if got[0] == "err" and pred[0] == "err":
-                return
+                return stale
             mism.append({"what": "canary:%s" % name,
                          "detail": "%s: pygom %s ; Lean model says closure compiled from definition version %d (current %d), sp=%s -> %s"
                                    % (where, show(got), dv, lean_step["cur_ver"], sp, show(pred))})
-
-    def params_at_ver(dv):
-        m, _ = fresh.model(dv, pv_init)
-        return [str(p) for p in m.param_list]
+        return stale
 
     for k in range(1, n + 1):
-        model = pymodel.build(spec, backend="lambda")
-        model.parameters = [pv_init[nm] for nm in names0]
+        models = [pymodel.build(specs0[i], backend="lambda") for i in range(NI)]
+        alive += models
+        for i in range(NI):
+            models[i].parameters = [pv_init[i][nm] for nm in names0[i]]
         ok = True
-        for i, op in enumerate(hist[:k]):
+        kept = []                    # (label, object returned, copy taken when it was returned)
+        last_eval = None
+        for q, op in enumerate(hist[:k]):
+            i = inst_of(op)
+            model = models[i]
             if op["op"] == "evaluate":
                 x = [xvals[str(s)] for s in model.state_list]
-                r_i = call(model, op["name"], x, t)
-                last_eval = r_i
+                kp = []
+                last_eval = call(model, op["name"], x, t, kp)
+                kept += [("in-history step %d %s" % (q, op["name"]), op["name"]) + z for z in kp]
             elif op["op"] == "set_params":
                 apply_set_params(model, op, {})
             else:
                 try:
                     apply_mutator(model, op)
-                    if accepted[i] is False:
+                    if accepted[q] is False:
                         ok = False
                 except Exception:
-                    if accepted[i]:
+                    if accepted[q]:
                         ok = False
         if not ok:
             mism.append({"what": "replay", "detail": "mutator accepted/rejected differently on replay at round %d" % k})
             break
-        order = case["observe"][k]
-        lh = lean_history(hist[:k], None) + [{"op": "evaluate", "name": e} for e in order]
-        lr = drv.call({"op": "canary", "cfg": CFG, "model": spec, "history": lh})
+        order = [(0, e) if isinstance(e, str) else (int(e[0]), e[1]) for e in case["observe"][k]]
+        reff = list((case.get("ref_first") or [[]] * (n + 1))[k]) if case.get("ref_first") else []
+        reff += [False] * (len(order) - len(reff))
+        form, tform = (case.get("forms") or [["list_float", "float"]] * (n + 1))[k]
+        if x2vals is not None:
+            tags.append("form:" + form)
+            tags.append("tform:" + tform)
+        lh = lean_history(hist[:k]) + [{"op": "evaluate", "name": e, "inst": i} for i, e in order]
+        if two:
+            lr = drv.call({"op": "canary2", "cfg": CFG, "model": specs0[0], "model_b": specs0[1], "history": lh})
+        else:
+            lr = drv.call({"op": "canary", "cfg": CFG, "model": specs0[0], "history": lh})
         if "steps" not in lr:
             mism.append({"what": "canary:build", "detail": json.dumps(lr)[:300]})
             break
         steps = lr["steps"]
         # mutator accept/reject must agree
-        for i, op in enumerate(hist[:k]):
-            if steps[i]["kind"] == "mutate" and bool(steps[i]["ok"]) != bool(accepted[i]):
-                mism.append({"what": "canary:accept/reject", "detail": "step %d %s: lean ok=%s python accepted=%s" % (i, op.get("kind"), steps[i]["ok"], accepted[i])})
+        for q, op in enumerate(hist[:k]):
+            if steps[q]["kind"] == "mutate" and bool(steps[q]["ok"]) != bool(accepted[q]):
+                mism.append({"what": "canary:accept/reject", "detail": "step %d %s: lean ok=%s python accepted=%s" % (q, op.get("kind"), steps[q]["ok"], accepted[q])})
         if mism:
             break
         last = hist[k - 1]
         culprit = op_kind(last)
-        ver, pvk = ver_after[k - 1], pv_after[k - 1]
-        got_x = [xvals[str(s)] for s in model.state_list]
-        got_pvals_all = [pvk[nm] for nm in params_after[k - 1]]
+        got_xs = [[xvals[str(s)] for s in models[i].state_list] for i in range(NI)]
+        pvals_all = [[pv_after[k - 1][i][nm] for nm in params_after[k - 1][i]] for i in range(NI)]
         if last["op"] == "evaluate":
             # the value the in-history evaluation itself returned (it is the last op of this prefix)
-            check(last["name"], last_eval, ver, pvk, steps[k - 1], k, "step %d: evaluate %s" % (k - 1, last["name"]))
-        for j, e in enumerate(order):
+            i = inst_of(last)
+            want = fresh[i].value(ver_after[k - 1][i], pv_after[k - 1][i], last["name"], xvals, t)
+            check(i, last["name"], last_eval, want, k, steps[k - 1], "step %d: evaluate %s" % (k - 1, last["name"]),
+                  ":2inst" if two else "", got_xs[i], pvals_all[i])
+        for j, (i, e) in enumerate(order):
+            model = models[i]
+            ver, pvk = ver_after[k - 1][i], pv_after[k - 1][i]
+            want = None
+            if reff[j]:
+                # ANOTHER live instance (the reference) evaluates the same evaluator first
+                want = fresh[i].value(ver, pvk, e, xvals, t, force=True)
+                counts["ref_first"] += 1
+            else:
+                counts["ref_after"] += 1
             before = getattr(model, e + "Compiled", None)
-            got = call(model, e, got_x, t)
+            kp = []
+            got = call(model, e, got_xs[i], t, kp)
+            kept += [("round %d observation #%d %s%s" % (k, j, e, " of instance %d" % i if two else ""), e) + z for z in kp]
+            if want is None:
+                want = fresh[i].value(ver, pvk, e, xvals, t)
             st = steps[k + j]
-            check(e, got, ver, pvk, st, k, "after step %d (%s), observing %s as #%d" % (k - 1, culprit, e, j))
+            where = "after step %d (%s), observing %s%s as #%d%s" % (k - 1, culprit, e, " of instance %d" % i if two else "", j,
+                                                                     ", reference evaluated first" if reff[j] else "")
+            stale = check(i, e, got, want, k, st, where, (":2inst" if two else "") + (":ref-first" if reff[j] else ""), got_xs[i], pvals_all[i])
             # internals: recorded only
             recompiled = getattr(model, e + "Compiled", None) is not before
             internal["recompile_agree" if recompiled == bool(st["recompiled"]) else "recompile_differ"] += 1
@@ -480,12 +690,43 @@ def run_case(case):
                 internal["flags_agree" if fl == {kk: bool(vv) for kk, vv in st["flags"].items()} else "flags_differ"] += 1
             except Exception:
                 pass
+            # the same evaluator at a SECOND point, state and time passed in the argument form of the round.  The property
+            # compares with a freshly constructed model: the reference is called with an equal container of the SAME form.
+            # (A value that depends on the form alone - the reference called with a list of floats returns something else -
+            # and a container written to by the call are side observations: TAGS, not violations of C08.)
+            if x2vals is not None and not stale:
+                counts["second_point"] += 1
+                vals2 = [x2vals[str(s)] for s in model.state_list]
+                arg, targ = make_form(form, vals2), make_tform(tform, t2)
+                snap = frozen(arg)
+                kp = []
+                got2 = call(model, e, arg, targ, kp)
+                kept += [("round %d observation #%d %s at the second point" % (k, j, e), e) + z for z in kp]
+                if frozen(arg) != snap:
+                    tags.append("side-effect:argument-modified:%s" % form)
+                want2 = fresh[i].value_form(ver, pvk, e, x2vals, t2, form, tform)
+                if not same(got2, want2):
+                    add_violation("second-point:%s:state=%s:t=%s%s" % (e, form, tform, ":raises:%s" % got2[1] if got2[0] == "err" else ""),
+                                  "%s at a second point (state as %s, time as %s) differs from a freshly constructed model given the same arguments" % (e, form, tform),
+                                  "%s: x2=%s t2=%s got %s ; fresh model gives %s" % (where, vals2, t2, show(got2), show(want2)))
+                elif not same(want2, fresh[i].value(ver, pvk, e, x2vals, t2, pt=2)):
+                    tags.append("form-dependent-value:%s" % form + (":raises:%s" % want2[1] if want2[0] == "err" else ""))
+        # every array returned during this round must still hold the value it was returned with
+        for label, e, raw, snap in kept:
+            counts["kept"] += 1
+            if not (raw.shape == snap.shape and np.array_equal(raw, snap, equal_nan=True)):
+                add_violation("result-overwritten:%s" % e, "an array returned by %s was changed by later calls" % e,
+                              "%s: returned %s, at the end of the round it holds %s" % (label, np.array2string(snap.ravel()[:12], precision=8),
+                                                                                     np.array2string(raw.ravel()[:12], precision=8)))
         if len(viol) >= 6 or len(mism) >= 6:
             break
     for kk, vv in internal.items():
         if vv:
             tags.append("internal:" + kk)
-    nontrivial = bool(after_compile)
+    for kk in ("ref_first", "second_point", "kept"):
+        if counts[kk]:
+            tags.append("probe:" + kk)
+    nontrivial = bool(after_compile) and (not two or any(compiled_seen))
     return {"nontrivial": nontrivial, "mismatches": mism, "violations": viol, "tags": sorted(set(tags)),
-            "sample": {"history": [dict((a, b) for a, b in o.items() if a in ("op", "kind", "name", "fmt")) for o in hist],
-                       "versions": len(specs), "internal": internal}}
+            "sample": {"history": [dict((a, b) for a, b in o.items() if a in ("op", "kind", "name", "fmt", "inst")) for o in hist],
+                       "versions": [len(sp) for sp in specs], "internal": internal, "probes": counts}}
